@@ -97,6 +97,9 @@ class Machine:
         self.SM = SM
         self.extra_summaries = summaries or {}
         self.iter_budget = None      # k: every iterator yields at most k elements per path (set loop_limit = k + 1 with it)
+        self._loopy = {}
+        self.inline_loopy = set()    # loopy callees that may be inlined nevertheless
+        self.inline_loopy_from_root = False   # allow it for direct callees of the explored function (thin public wrappers)
         self.havoc_loops = False     # at the first entry of a loop header, replace the integer locals assigned in the loop by symbols
         self._loopinfo = {}
 
@@ -1169,7 +1172,15 @@ class Machine:
             return False
         if any(f.key == key for f in st.frames):
             return False
-        return key in self.P.body
+        if key not in self.P.body:
+            return False
+        # a callee with loops is summarised as an opaque call (its loops would otherwise cut the caller's path)
+        if key not in self._loopy:
+            import graph as G
+            self._loopy[key] = bool(G.back_edges(self.P.body[key]))
+        if self._loopy[key] and key not in self.inline_loopy and not (self.inline_loopy_from_root and len(st.frames) == 1):
+            return False
+        return True
 
     def do_inline(self, st, fr, t, key, args):
         st.counter += 1
